@@ -30,6 +30,10 @@ RULE = ('(codepoints) every code point 0..0x10FFFF (quick: BMP + every 17th '
         '0..12 entries over all eight tags, hostile paths, sizes to 2**64, '
         '0..10 checksums, any timestamp with second resolution, sorted and '
         'unsorted, through StringIO and through plain/gz/bz2/lzma/xz files. '
+        '(locale) 1..6 such entries saved and reloaded by '
+        'ManifestRecursiveLoader as plain/gz/bz2/lzma/xz files inside a child '
+        'process whose locale encoding is not UTF-8 (LC_ALL=C, UTF-8 mode '
+        'off): file bytes and reloaded entries as in a UTF-8 process. '
         '(fixedpoint) every text of C09\'s grammar and mutation generators '
         'that gemato accepts: dump(load(t)) must load to equal entries and '
         'be a fixed point. Non-trivial: a path needing an escape, or >= 2 '
